@@ -3,7 +3,7 @@ CONSTANTS
   NStmt = 3
   Patterns <- PatQuick
   TailPatterns <- TailQuick
-  LeadModes <- LeadInts
-  TrailModes <- TrailInts
+  LeadModes <- LeadAll
+  TrailModes <- TrailAll
 INVARIANTS Accept Reject AllClausesSeen
 CHECK_DEADLOCK FALSE
